@@ -25,7 +25,7 @@ TRUSTED = [
     "translator translate/globals (our Go code) + golang.org/x/tools v0.29.0 go/packages, go/ssa: summary-based, field-insensitive "
     "write analysis over static calls (interface/dynamic calls and closures' free variables are not followed); curated list of "
     "state-changing stdlib APIs (math/rand top-level functions, runtime/debug.Set*, os.Setenv/Chdir, log.Set*, signal.*)",
-    "translate/globals/allow.txt: 4 variables whose write-through rows are artefacts of field-insensitivity (never hides a direct assignment)",
+    "translate/globals/allow.txt: 5 variables whose write-through rows are artefacts of field-insensitivity (never hides a direct assignment)",
     "the link between Iso/Noninterf.v's shared component G and the generated table is informal: G = the package-level variables; "
     "a variable without writers outside init is constant after program start",
     "Go harness harness/cmd/gvh-iso; Python generator/diff lib/props/C20.py; Go race detector for data races (observed, not proved)",
@@ -130,9 +130,11 @@ def diff_events(solo, other):
 def translate(ck, known_vars):
     tdir = os.path.join(vlib.VERIF, "translate")
     binp = os.path.join(vlib.WORK, "bin", "tr-globals")
-    rc, so, se = vlib.sh(["go", "build", "-o", binp, "./globals"], cwd=tdir, timeout=600)
-    if rc != 0:
-        return None, "translator does not build: " + se[-2000:]
+    srcs = [os.path.join(root, f) for root, _, fs in os.walk(tdir) for f in fs if f.endswith((".go", ".mod", ".sum"))]
+    if not (os.path.exists(binp) and os.path.getmtime(binp) >= max(os.path.getmtime(x) for x in srcs)):
+        rc, so, se = vlib.sh(["go", "build", "-o", binp, "./globals"], cwd=tdir, timeout=600)
+        if rc != 0:
+            return None, "translator does not build: " + se[-2000:]
     out = os.path.join(vlib.COQ, "theories", "Iso", "Generated.v")
     diag = os.path.join(ck.work, "diag.json")
     cmd = [binp, "-repo", vlib.REPO, "-out", out + ".tmp", "-json", diag, "-allow", os.path.join(tdir, "globals", "allow.txt"),
@@ -153,6 +155,23 @@ def translate(ck, known_vars):
 RACE_RE = re.compile(r"WARNING: DATA RACE\n(.*?)\n==================", re.S)
 
 
+def prove(ck, tier):
+    """Re-check the proof obligations; the thorough tier rebuilds this property's own cone from scratch
+    (only our directories: other checks may be building in the same tree) and runs coqchk."""
+    if tier == "thorough":
+        for d in ['Iso'] + ["Properties"]:
+            dd = os.path.join(vlib.COQ, "theories", d)
+            for f in os.listdir(dd):
+                if f.endswith((".vo", ".vok", ".vos", ".glob")) and (d != "Properties" or f.startswith('C20.')):
+                    os.remove(os.path.join(dd, f))
+    ok = ck.obligations(PROP, clean=False)
+    if ok and tier == "thorough":
+        ok = ck.coqchk(['GV.Properties.C20'])
+        if not ok:
+            ck.cov["obligation_failure"] = "coqchk: " + str(ck.cov.get("coqchk"))
+    return ok
+
+
 def run(tier, seed):
     ck = vlib.Check("C20", tier, seed, level="proof")
     known_vars = {}
@@ -160,7 +179,12 @@ def run(tier, seed):
         if k.get("status") == "open":
             for v in k.get("match", {}).get("variables", []):
                 known_vars[v] = k
-    # ---------------- 1. translator + obligations
+    # ---------------- 1. translator (regenerates Iso/Generated.v) in parallel with the two harness builds
+    from concurrent.futures import ThreadPoolExecutor
+    pool = ThreadPoolExecutor(max_workers=3)
+    ov = os.environ.get("VERIF_OVERLAY")
+    f_plain = pool.submit(ck.build_gvh, ("verif",), False, "gvh_iso", "./cmd/gvh-iso", ov)
+    f_race = pool.submit(ck.build_gvh, ("verif",), True, "gvh_iso_race", "./cmd/gvh-iso", ov)
     diag, err = translate(ck, sorted(known_vars))
     if diag is None:
         ck.violation(err[:300], {"kind": "translator", "detail": err}, no_input=True)
@@ -171,27 +195,28 @@ def run(tier, seed):
     ck.cov["variables_with_writers_outside_init"] = {r["var"]: {"direct": r["direct"], "indirect": r["indirect"][:6],
                                                                "allowed": bool(r.get("allowed")), "known": bool(r.get("known"))} for r in written}
     ck.cov["allow_unused"] = diag.get("allow_unused") or []
-    ok_obl = ck.obligations(PROP, clean=(tier == "thorough"))
-    ck.log("obligations checked:", ok_obl)
-    bad_rows = [r for r in written if r["var"] not in known_vars and (r["direct"] or (r["indirect"] and not r.get("allowed")))]
-    for r in written:
-        if r["var"] in known_vars:
-            ck.known_finding(known_vars[r["var"]])
-    for v, k in known_vars.items():
-        if not any(r["var"] == v for r in written):
-            ck.notes.append("known finding %s: variable %s no longer has a writer outside init" % (k["id"], v))
-
+    ck.cov["packages_loaded"] = diag.get("packages")
+    ck.cov["variables_in_package_scopes"] = diag.get("vars_in_scopes")
+    f_obl = pool.submit(prove, ck, tier)
     # ---------------- 2. dynamic: pairs of programs
-    gvh, berr = ck.build_gvh(pkg="./cmd/gvh-iso", name="gvh_iso", overlay=os.environ.get("VERIF_OVERLAY"))
+    gvh, berr = f_plain.result()
     if gvh is None:
+        f_obl.result()
         ck.violation("harness does not build against /repo", {"kind": "build", "stderr": berr[-3000:]}, no_input=True)
         return ck.finish("n/a", TRUSTED, [])
-    gvh_race, berr = ck.build_gvh(pkg="./cmd/gvh-iso", name="gvh_iso_race", race=True, overlay=os.environ.get("VERIF_OVERLAY"))
+    gvh_race, berr = f_race.result()
     if gvh_race is None:
         ck.notes.append("race build failed: " + berr[-500:])
     ck.log("harness built (plain + race)")
-    npairs = 320 if tier == "quick" else 12000
+    npairs = 240 if tier == "quick" else 6000
     pairs = []
+    cfile = os.path.join(vlib.VERIF, "corpus", "C20", "pairs.jsonl")
+    if os.path.exists(cfile):
+        for l in open(cfile):
+            if l.strip():
+                c = json.loads(l)
+                pairs.append(("corpus", c["A"], c["B"], c["schedule"]))
+    ck.cov["corpus_pairs"] = len(pairs)
     for i in range(npairs):
         kind = "rng" if i % 10 == 3 else ("gc" if i % 50 == 7 else "plain")
         A, B, sched = gen_pair(ck.rng, kind)
@@ -254,15 +279,24 @@ def run(tier, seed):
                                       "theorem": "C20_noninterference (hypothesis no_shared_write fails for the code)"})
 
     alli = list(range(len(lines)))
+    # the four race-build runs go on in the background while the plain build does the full sweep
+    race_jobs = []
+    if gvh_race is not None:
+        nr = 24 if tier == "quick" else 400
+        ncor = ck.cov["corpus_pairs"]
+        rpool = ThreadPoolExecutor(max_workers=4)
+        for gi, gmp in enumerate(("1", "2", "4", "16")):
+            sub = list(range(ncor)) + [i for i in alli if i >= ncor and i % 4 == gi][:nr]
+            fut = rpool.submit(vlib.run_lines, gvh_race, [], [lines[i] for i in sub], 3000,
+                               {"GOMAXPROCS": gmp, "GORACE": "halt_on_error=0"})
+            race_jobs.append((gmp, sub, fut))
     outs = vlib.run_lines_resilient(gvh, [], lines, per_case_timeout=60, env={"GOMAXPROCS": "4"})
     evaluate(outs, "plain/GOMAXPROCS=4", alli)
     ck.log("plain build: %d pairs done" % len(outs))
     races = {}
-    if gvh_race is not None:
-        nr = 30 if tier == "quick" else 600
-        for gi, gmp in enumerate(("1", "2", "4", "16")):
-            sub = [i for i in alli if i % 4 == gi][:nr]
-            rc, o, se = vlib.run_lines(gvh_race, [], [lines[i] for i in sub], timeout=1200, env={"GOMAXPROCS": gmp, "GORACE": "halt_on_error=0"})
+    if race_jobs:
+        for gmp, sub, fut in race_jobs:
+            rc, o, se = fut.result()
             evaluate(o, "race/GOMAXPROCS=" + gmp, sub)
             if len(o) < len(sub):
                 ck.violation("race build of gvh-iso stopped after %d/%d pairs (GOMAXPROCS=%s)" % (len(o), len(sub), gmp),
@@ -295,6 +329,15 @@ def run(tier, seed):
                        "A_solo_trace": bytes.fromhex(outs[ex].split(" ")[1][3:]).decode("utf-8", "replace")[:300] if " SA:" in outs[ex] else outs[ex][:200]})
 
     # ---------------- 3. rows of the generated table that break the theorem are the failing inputs
+    ok_obl = f_obl.result()
+    pool.shutdown()
+    bad_rows = [r for r in written if r["var"] not in known_vars and (r["direct"] or (r["indirect"] and not r.get("allowed")))]
+    for r in written:
+        if r["var"] in known_vars:
+            ck.known_finding(known_vars[r["var"]])
+    for v, k in known_vars.items():
+        if not any(r["var"] == v for r in written):
+            ck.notes.append("known finding %s: variable %s no longer has a writer outside init" % (k["id"], v))
     for r in bad_rows[:10]:
         ck.violation("package-level variable %s (%s, %s) is written outside package initialisers by %s" %
                      (r["var"], r["type"][:60], r["pos"], ", ".join((r["direct"] + r["indirect"])[:4])),
